@@ -6,7 +6,13 @@ from . import C17 as _c17
 def _regen_mesgdef(ctx):
     """per-message tables of the typed layer by reflection + probing of the compiled mesgdef package"""
     import framework as F
-    return _c17._regen_registry(ctx) and F.harness_regen(ctx, 'mesgdef', 'Mesgdef.lean')
+    if not _c17._regen_registry(ctx):
+        return False
+    rc, out = F.sh([os.path.join(F.BIN, 'fitharness'), 'regen', 'mesgdef', os.path.join(F.LEAN, 'FitModel', 'Generated', 'Mesgdef.lean')], env=F.GOENV)
+    if rc != 0:
+        ctx.fail('tool', 'translator mesgdef: the compiled typed layer cannot be described by a table: ' + out.strip()[-400:], detail=out[-2000:])
+        return False
+    return True
 
 
 def _regen_profiletables_c13(ctx):
@@ -20,7 +26,7 @@ REGEN = {'mesgdef': _regen_mesgdef, 'profiletables13': _regen_profiletables_c13}
 PROP = dict(
     level='proof',
     regen=['mesgdef', 'profiletables13'],
-    theorems=['Fit.C13.C13_tables_wf', 'Fit.C13.C13_tables_match_factory', 'Fit.C13.C13_std_factory_ok', 'Fit.C13.C13_zero_time',
+    theorems=['Fit.C13.C13_tables_wf', 'Fit.C13.C13_tables_expressible', 'Fit.C13.C13_tables_match_factory', 'Fit.C13.C13_std_factory_ok', 'Fit.C13.C13_zero_time',
               'Fit.C13.C13_mesg_struct_mesg', 'Fit.C13.C13_struct_mesg_struct', 'Fit.C13.C13_no_panic', 'Fit.C13.C13_unknown_kept',
               'Fit.C13.C13_nil_fieldbase_panics', 'Fit.C13.C13_slot_read_emit', 'Fit.C13.C13_all_messages'],
     families=[dict(name='typed', spec=True)],
